@@ -123,10 +123,14 @@ func c07Run(w *harness.World, base sdk.Context, cs c07Case, st *c07Stats, report
 	case cs.Op == "move":
 		amount = lockedPre
 		msg = vtypes.NewMsgMoveAvailableVesting(from.String(), to.String())
-	default: // movedenoms:<mask>
+	default: // movedenoms:<mask>, or movedenoms-x:<mask> with a denomination the sender holds nothing of listed first
 		var mask int
-		fmt.Sscanf(cs.Op, "movedenoms:%d", &mask)
 		var ds []string
+		if _, err := fmt.Sscanf(cs.Op, "movedenoms-x:%d", &mask); err == nil {
+			ds = append(ds, "aaanothing")
+		} else {
+			fmt.Sscanf(cs.Op, "movedenoms:%d", &mask)
+		}
 		for i, d := range c07Denoms {
 			if mask&(1<<uint(i)) != 0 {
 				ds = append(ds, d)
@@ -313,6 +317,7 @@ func c07Structured(emit func(c07Case)) {
 					}
 					for mask := 1; mask <= 3; mask++ {
 						emit(c07Case{OV: []string{fmt.Sprint(ov), fmt.Sprint(ovb)}, Dur: dur, Elapsed: el, Op: fmt.Sprintf("movedenoms:%d", mask), Family: "move-by-denoms"})
+						emit(c07Case{OV: []string{fmt.Sprint(ov), fmt.Sprint(ovb)}, Dur: dur, Elapsed: el, Op: fmt.Sprintf("movedenoms-x:%d", mask), Family: "move-by-denoms-with-unheld-denom"})
 					}
 					emit(c07Case{OV: []string{fmt.Sprint(ov), fmt.Sprint(ovb)}, Dur: dur, Elapsed: el, Op: "move", Family: "move-two-denoms"})
 				}
